@@ -244,6 +244,41 @@ Proof.
   - destruct (snd (st_batch_loop st (f :: r) ai)) eqn:S; rewrite <- B1; split; try exact B2; exact S.
 Qed.
 
+(* get_frames with the transforms off walks exactly the path of get_stored_frames - same answer AND same
+   cache afterwards - in every cache state, for every request (no validity hypothesis needed): the only
+   differences in the code (frame bytes fetched by index + 1, own test for a single-frame image, first
+   number standardised up front) cannot be observed.  With the pre-D108 rank test this is false for a
+   single colour frame with an array cached. *)
+Lemma st_frames_one_eq : forall st f ai, st_frames_one st f ai = st_one st f ai.
+Proof.
+  intros st f ai. unfold st_frames_one, st_one. cbv zeta.
+  destruct (index_total (f_frames (c_fmt (i_c st))) f ai) as [(i & E & Hi) | E]; rewrite E; [|reflexivity].
+  destruct (i_cache st) as [k|].
+  - destruct (f_frames (c_fmt (i_c st)) =? 1) eqn:N; [|reflexivity].
+    assert (i = 0) by lia. subst i. reflexivity.
+  - unfold get_raw_frame.
+    assert (E1 : std_index (f_frames (c_fmt (i_c st))) (i + 1) false = Ok i)
+      by (apply index_rule; right; repeat split; lia).
+    rewrite E1. reflexivity.
+Qed.
+
+Lemma st_frames_loop_eq : forall fs st ai, st_frames_loop st fs ai = st_batch_loop st fs ai.
+Proof.
+  induction fs as [|f r IH]; intros st ai; cbn [st_frames_loop st_batch_loop]; [reflexivity|].
+  rewrite st_frames_one_eq. destruct (snd (st_one st f ai)); [|reflexivity]. now rewrite IH.
+Qed.
+
+Lemma st_frames_eq : forall fs st ai, st_frames st fs ai = st_batch st fs ai.
+Proof.
+  intros [|f0 r] st ai; unfold st_frames, st_batch; [reflexivity|].
+  set (n := f_frames (c_fmt (i_c st))).
+  destruct (std_index n f0 ai) as [i|k] eqn:E.
+  - rewrite st_frames_loop_eq. cbv zeta. destruct (snd (st_batch_loop st (f0 :: r) ai)); reflexivity.
+  - assert (L : st_batch_loop st (f0 :: r) ai = (st, Err k)).
+    { cbn [st_batch_loop]. unfold st_one. fold n. rewrite E. reflexivity. }
+    cbv zeta. rewrite L. reflexivity.
+Qed.
+
 Lemma st_decode_raw_spec : forall st f ai, valid_c (i_c st) -> enough (c_fmt (i_c st)) (i_pd st) ->
   st_decode_raw st f ai = ref_one (i_c st) (i_pd st) f ai.
 Proof.
@@ -267,6 +302,7 @@ Definition ref_step (x : cfmt * list Z) (o : op) : (cfmt * list Z) * val :=
   | OAssign pd' => ((c, pd'), VNone)
   | OInplace pd' => ((c, pd'), VNone)
   | OHeader c' => ((c', pd), VNone)
+  | OFrames fs ai => (x, vans64 c vz_list2 (ref_batch c pd fs ai))
   end.
 
 Fixpoint ref_ops (x : cfmt * list Z) (ops : list op) : list val :=
@@ -286,7 +322,7 @@ Fixpoint ops_valid (x : cfmt * list Z) (ops : list op) : Prop :=
 Lemma step_spec : forall st o, valid_c (i_c st) -> enough (c_fmt (i_c st)) (i_pd st) ->
   snd (step st o) = snd (ref_step (content st) o) /\ content (fst (step st o)) = fst (ref_step (content st) o).
 Proof.
-  intros st o Hv He. destruct o as [|f ai|fs ai|f ai|f ai|pd'|pd'|c']; unfold step, ref_step, content; cbn [fst snd i_c i_pd].
+  intros st o Hv He. destruct o as [|f ai|fs ai|f ai|f ai|pd'|pd'|c'|fs ai]; unfold step, ref_step, content; cbn [fst snd i_c i_pd].
   - destruct (pixel_array_spec st) as [P1 P2]. rewrite P1, whole_array_c_spec by assumption. split; [reflexivity|exact P2].
   - destruct (st_one_spec st f ai Hv He) as [P1 P2]. rewrite P1. split; [reflexivity|exact P2].
   - destruct (st_batch_spec fs st ai Hv He) as [P1 P2]. rewrite P1. split; [reflexivity|exact P2].
@@ -295,6 +331,7 @@ Proof.
   - split; reflexivity.
   - split; reflexivity.
   - split; reflexivity.
+  - rewrite st_frames_eq. destruct (st_batch_spec fs st ai Hv He) as [P1 P2]. rewrite P1. split; [reflexivity|exact P2].
 Qed.
 
 Lemma history_irrelevant : forall ops st, ops_valid (content st) ops ->
